@@ -105,27 +105,12 @@ ReconsiderDelayedUps(e, j) ==
 
 ConsiderDowns(e, j) == FoldL(LAMBDA acc, d : Reconsider(acc, d), e, DownsOf(e, j))
 
-(***************************************************************************)
-(* try_finding_renamed_multi_output_job: the historical upstream of d      *)
-(* sharing the most output names with the (now differently named) u.       *)
-(* The code takes the first maximum in hash order; ties are resolved here  *)
-(* by CHOOSE (deviation: tie order is not modelled).                       *)
-(***************************************************************************)
-Overlap(c, x, u) == Cardinality(ToSet(c.idnames[x]) \cap ToSet(c.idnames[u]))
-RenamedFor(c, u, d) ==
-  LET cands == {x \in ToSet(c.ids) : EKey(x, d) \in DOMAIN c.hist0 /\ Overlap(c, x, u) > 0}
-      best == {x \in cands : \A y \in cands : Overlap(c, y, u) <= Overlap(c, x, u)}
-  IN IF cands = {} THEN <<>> ELSE <<CHOOSE x \in best : TRUE>>
-
 (* edge_invalidated: [e, b] *)
 EdgeInv(c, e, u, d) ==
   LET k == EKey(u, d) IN
   IF e.einv[k] = "Yes" THEN [e |-> e, b |-> TRUE]
   ELSE IF e.einv[k] = "No" THEN [e |-> e, b |-> FALSE]
-  ELSE LET last == IF k \in DOMAIN c.hist0 THEN <<c.hist0[k]>>
-                   ELSE LET r == RenamedFor(c, u, d)
-                        IN IF r # <<>> /\ OKey(r[1]) \in DOMAIN c.hist0
-                           THEN <<c.hist0[OKey(r[1])]>> ELSE <<>>
+  ELSE LET last == EdgeRec(c, u, d)
        IN IF last = <<>> THEN [e |-> [e EXCEPT !.einv[k] = "Yes"], b |-> TRUE]
           ELSE IF u \notin DOMAIN e.hout
                THEN [e |-> Err(e, "internal:No current history for job"), b |-> TRUE]
@@ -144,8 +129,8 @@ UVS(c, e0, j) ==
            ELSE IF su \in {"E:ReadyButDelayed", "E:NotReady(Validated)"}
            THEN IF OKey(u) \notin DOMAIN c.hist0
                 THEN [acc EXCEPT !.e = Err(e, "internal:Should have had history for it")]
-                ELSE IF EKey(u, j) \notin DOMAIN c.hist0 THEN [acc EXCEPT !.inv = TRUE]
-                ELSE IF Altered(c, j, c.hist0[EKey(u, j)], c.hist0[OKey(u)])
+                ELSE IF EdgeRec(c, u, j) = <<>> THEN [acc EXCEPT !.inv = TRUE]
+                ELSE IF Altered(c, j, EdgeRec(c, u, j)[1], c.hist0[OKey(u)])
                      THEN [e |-> [e EXCEPT !.ereq[EKey(u, j)] = "Yes"], inv |-> TRUE,
                            nd |-> acc.nd]
                      ELSE acc
@@ -504,7 +489,8 @@ NewHistory(c, e) ==
       ids == ToSet(c.ids)
       dag == DagEdges(c)
       keepE(a, b) == IF a \in N /\ b \in N THEN <<a, b>> \in dag
-                     ELSE FilterIfRenamed(c, a) /\ FilterIfRenamed(c, b)
+                     ELSE FilterIfRenamed(c, b)
+                          /\ (FilterIfRenamed(c, a) \/ b \notin N \/ b \notin DOMAIN e.hout)
       kept == ({OKey(a) : a \in {x \in ids : FilterIfRenamed(c, x)}}
                \cup {NKey(a) : a \in {x \in ids : FilterIfRenamed(c, x)}}
                \cup {EKey(p[1], p[2]) : p \in {q \in ids \X ids : keepE(q[1], q[2])}})
